@@ -153,8 +153,8 @@ def check(world, tier):
         if not info:
             c.ob(False, "retry-counter %s" % tag, "no bounded retry counter found in the %s loop (see C07.a)" % tag)
             continue
-        c.ob(info["bound"] >= BUDGET, "retry-budget %s" % tag, "the %s worker gives up after %d failed receives (< %d)" % (tag, info["bound"], BUDGET),
-             sample={"region": tag, "retry bound": info["bound"]})
+        c.ob(info["budget"] >= BUDGET, "retry-budget %s" % tag, "the %s worker gives up after %d failed receives (< %d)" % (tag, info["budget"], BUDGET),
+             sample={"region": tag, "retry bound": info["budget"]})
         loopn = R.loop_nodes(fid, h)
         g = R.g
         outside = set(g.succ.keys()) - loopn
@@ -167,7 +167,7 @@ def check(world, tier):
             rearmed = any(n_ in outer_nodes for n_ in init_nodes)
             c.ob(rearmed, "retry-budget-not-rearmed %s" % tag,
                  "the %s worker's retry counter is initialised once per transfer and never reset: %d failed receives anywhere in a transfer "
-                 "(not %d consecutive ones) abort it" % (tag, info["bound"], info["bound"]),
+                 "(not %d consecutive ones) abort it" % (tag, info["budget"], info["budget"]),
                  sample={"region": tag, "counter initialised inside the per-window loop": rearmed})
         oe = R.recv_outcome_edges()
         kind = ("pkt", "Ack") if tag == "send" else ("pkt", "Data")
@@ -180,7 +180,7 @@ def check(world, tier):
             bump = r & info["incs"]
             c.ob(not bump, "stale-%s-consumes-retry %s" % (kind[1].lower(), tag),
                  "a stale/duplicate %s (one that makes no progress) increments the retry counter: %d of them abort the transfer without any time-out"
-                 % (kind[1].upper(), info["bound"]), sample={"region": tag, "edge": kind[1], "reaches increment": bool(bump)})
+                 % (kind[1].upper(), info["budget"]), sample={"region": tag, "edge": kind[1], "reaches increment": bool(bump)})
             if tag == "send":
                 r2 = g.reachable([e[1]], avoid_nodes=prog_nodes, stop_at=errret | set([(fid, h)]))
                 c.ob(not (r2 & errret), "stale-ack-aborts", "an ACK that is not accepted can end the transfer with an error")
